@@ -21,13 +21,27 @@ PROP = Property(
     verus=[VerusUnit("signer_builder", "verus/C06/signer_builder.tmpl.rs",
                      "extracted text of mithril-common SignerBuilder::new (the function through which signer, aggregator and client derive the aggregate key): Ok ==> exactly one registration request per listed signer, in order, "
                      "each carrying THAT signer's own party id / opcert / key / key signature / KES evolutions, against the stake distribution derived from the same list, closed with the given protocol parameters",
-                     ["SignerBuilder::new"])],
+                     ["SignerBuilder::new"]),
+           VerusUnit("paths", "verus/C06/paths.tmpl.rs",
+                     "extracted text of the client's and the signer's computation paths: mithril-client MessageBuilder::compute_mithril_stake_distribution_message Ok ==> the message is the certificate's protocol message with "
+                     "NextAggregateVerificationKey := json_hex(key SignerBuilder derives from exactly (the distribution's decoded signers, the distribution's parameters)) and nothing else changed; "
+                     "mithril-signer MithrilSingleSigner::build_protocol_single_signer Ok ==> the signer is the one SignerBuilder restores from exactly (the epoch's current signers with stake, the key material's own parameters) for this party and this key material",
+                     ["mithril-client MessageBuilder::compute_mithril_stake_distribution_message", "mithril-signer MithrilSingleSigner::build_protocol_single_signer"]),
+           VerusUnit("aggregator_epoch_service", "verus/C20/aggregator_epoch_service.tmpl.rs",
+                     "extracted text of the aggregator's path (shared with C20): MithrilEpochService::precompute_epoch_data Ok ==> both aggregate keys and both multi-signers are SignerBuilder's results for exactly "
+                     "(signers in force, parameters for aggregation) and (next signers, parameters for next aggregation)",
+                     ["aggregator MithrilEpochService::precompute_epoch_data", "aggregator MithrilEpochService::inform_epoch", "aggregator MithrilEpochService::update_next_signers_with_stake"])],
+    replays=[dict(crate="mithril-client", file="mithril-client/src/message.rs", module="replays/c06_client_message.rs", features="rustls"),
+             dict(crate="mithril-signer", file="mithril-signer/src/services/single_signer.rs", module="replays/c06_signer_single_signer.rs"),
+             dict(crate="mithril-aggregator", file="mithril-aggregator/src/services/epoch_service.rs", module="replays/c20_aggregator_epoch_service.rs")],
     assumptions=[
         "SignerBuilder::new: KeyRegWrapper (init / register / close) as an abstract registration recording its stake map and accepted requests (register's own contract: C07); the map/collect building the stake distribution is a contract fn; .with_context removed; strip_cfg future_snark",
         "BlsVerificationKey::to_bytes (blst compress, FFI) is a contract stub: a fixed 96-byte encoding per key; blst point equality coincides with equality of that encoding (canonical compressed form) - assumed",
         "std BTreeSet iteration order is determined by Ord (assumed contract on the dependency): with the proved total order the iteration order, hence leaf order, signer slots and Merkle root, is a function of the set of (key, stake) pairs",
         "order independence of KeyRegistration::register_by_entry + close_registration as executed code (BTreeSet/HashSet of blst keys) is not run symbolically; JSON/hex round trips and 'distinct sets => distinct keys' (Merkle collision resistance) are not decided",
-        "the three computation paths (signer, aggregator, client) all go through SignerBuilder::new(..).compute_aggregate_verification_key(): read off the source, not proved",
+        "the three computation paths (signer: build_protocol_single_signer, aggregator: precompute_epoch_data, client: compute_mithril_stake_distribution_message) are under contract (units paths, aggregator_epoch_service): each hands exactly its "
+        "signer list and parameters to SignerBuilder::new and uses the result unchanged; SignerBuilder's methods, ProtocolKey JSON-hex encoding, SignerWithStakeMessagePart::try_into_signers (hex decoding) and the epoch services are callee contracts "
+        "over uninterpreted functions; rewrites: async/.await, with_context/map_err removed, RwLock read guard -> reference, Vec/String clones -> contract fns, strip_cfg future_snark",
     ],
     explanation="The ordering laws of the registration entry types are proved on the real Ord impls (complete unrolling of the 96-byte loop); they are exactly what makes a BTreeSet's iteration order independent of insertion order.",
     not_decided=["serde round trips of keys and signer lists", "distinct registration sets give distinct aggregate keys (collision resistance)", "total_stake / close_registration executed symbolically"],
